@@ -6,6 +6,7 @@ from common import build_tuc
 from gen import DELIMS, bytes_upto, all_bounds
 
 LEVEL = "proof"
+LYING = lambda a: not any(x in a for x in ("-b", "-l", "-c"))        # which command lines of cases.rand_cli the lying-size stdin scenario keeps
 COUNTS = ["f", "g"]        # modes of cases.count_thresholds
 BIG_IO = lambda a: "-f" in a and "-M" not in a        # which command lines of cases.rand_cli the large-input stream keeps
 
